@@ -973,6 +973,12 @@ def pred_needs_api_set_prefs(v, params):
     return not any(x["kind"].startswith("recovery") for x in replay(w))
 
 
+def pred_order(v, params):
+    """the witness history is one of the named orders (params: {"prefix": ...})"""
+    return str(v["witness"].get("order", "")).startswith(params.get("prefix", "\0"))
+
+
+core.PREDICATES["c14_order"] = pred_order
 core.PREDICATES["c14_prefs_file"] = pred_prefs_file
 core.PREDICATES["c14_needs_api_set_prefs"] = pred_needs_api_set_prefs
 
